@@ -48,6 +48,7 @@ let parse_op (s : string) : bop =
   | ["setroot"; hs] -> BSetRoot (z hs)
   | ["rt"; d; p; f] -> BRoundTrip (z d, z p, z f)
   | ["dump"; l] -> BDump (loc_of l)
+  | ["reopen"; _] -> BReopen
   | ["root"; l] -> BRead (loc_of l, ORoot)
   | ["rlimit"; l] -> BRead (loc_of l, ORLimit)
   | ["sptr"; h; i] -> BRead (InDst, OSPtr (z h, z i))
